@@ -1651,7 +1651,9 @@ class OpNcon(Op):
                         out_sub.append(lab(v, q))
                         axes.append(s.axes[k])
                     tree.append(s.tree[i])
-        arr = np.einsum(*operands, out_sub)
+        # pairwise (greedy) evaluation: the naive nested loop over all labels is exponential in the number of operands
+        # (one C03 seed spent > 5 min here and was counted as a dead worker by `vp check`)
+        arr = np.einsum(*operands, out_sub, optimize="greedy")
         n = shs[0].sym.zero()
         for s in shs:
             n = s.sym.add(n, s.n)
